@@ -15,7 +15,7 @@ use serde_json::{json, Value};
 /// preceding states: (label, calls before the aligned entry)
 fn preludes() -> Vec<(&'static str, Vec<Call>)> {
     let f = |n: usize| vec![Call::StartFile { name: "p".into(), opts: FOpts::m(0) }, Call::Write(vec![7u8; n])];
-    vec![("empty", vec![]), ("1-byte-entry", f(1)), ("30-byte-entry", f(30)), ("31-byte-entry", f(31)), ("4095-byte-entry", f(4095)), ("deflated-entry+dir", vec![Call::StartFile { name: "q".into(), opts: FOpts::m(8) }, Call::Write(vec![9u8; 500]), Call::AddDir { name: "d".into(), opts: FOpts::m(0) }])]
+    vec![("empty", vec![]), ("1-byte-entry", f(1)), ("30-byte-entry", f(30)), ("31-byte-entry", f(31)), ("4095-byte-entry", f(4095)), ("65500-byte-entry", f(65_500)), ("200000-byte-entry", f(200_000)), ("deflated-entry+dir", vec![Call::StartFile { name: "q".into(), opts: FOpts::m(8) }, Call::Write(vec![9u8; 500]), Call::AddDir { name: "d".into(), opts: FOpts::m(0) }])]
 }
 
 fn check_align(align: u16, prelude: &(&'static str, Vec<Call>), name_len: usize, large: bool, method: u16, st: &mut Stats, order: u64) {
@@ -305,7 +305,7 @@ pub fn run(args: &Args) -> i32 {
         v
     };
     ctx.rule = format!(
-        "E-PROD. Alignment: {} alignment values ({}) x 6 preceding archive states (empty; entries of 1/30/31/4095 bytes; deflated entry + directory) x 3 name lengths chosen so that the header ends at 0, 1, -1 modulo the alignment \
+        "E-PROD. Alignment: {} alignment values ({}) x 8 preceding archive states (empty; entries of 1/30/31/4095/65 500/200 000 bytes, i.e. data offsets below and above 2^16; deflated entry + directory) x 3 name lengths chosen so that the header ends at 0, 1, -1 modulo the alignment \
          x large_file {{no, yes}} x method {{stored, deflated}}: an Ok result must put the data at a multiple of the alignment (independent parser and ZipFile::data_start) and a strictly valid archive (the padding record's ID and the returned padding length are documented but not stated by the property: counted only); Err is a refusal. \
          Extra data: all lists of <= 3 records over 9 header IDs x sizes {{0, 1, 4}} (+ 65531 singly) x tails {{clean, 1-3 stray bytes, overlong size field}} x placement {{shared, local-only, central-only, different local+central}} x large_file; and EVERY header ID 0..=65535 singly. \
          Oracle: reference rules transcribed from APPNOTE (reject truncated / ID 0x0001 / reserved IDs / oversize; accept the rest; IDs listed only in some revisions: either) and verbatim placement. distinct_nontrivial = distinct accepted cases (hash set).",
